@@ -409,7 +409,12 @@ func (dest *destination) implicitWithdraw(logger *slog.Logger, newPath *Path) *P
 				slog.String("Path", path.String()))
 
 			found = i
-			newPath.localID = path.localID
+			// a soft reset feeds the very Path objects of the Adj-RIB-In back
+			// in; they are shared with watchers, so do not write a value the
+			// path already has
+			if newPath.localID != path.localID {
+				newPath.localID = path.localID
+			}
 			break
 		}
 	}
